@@ -11,6 +11,7 @@ import (
 	"encoding/json"
 	"fmt"
 	"os"
+	"os/exec"
 	"regexp"
 	"sort"
 	"strconv"
@@ -444,7 +445,7 @@ func makeTask(s spec, w *world, rec *Rec) func() {
 						rec.num("coeff64", int(comb.CoeffUint64(uint64(n), uint64(k))%1000003))
 					}()
 				case 2:
-					for _, row := range comb.Coeffs(n % 12) {
+					for _, row := range comb.Coeffs(n % 30) {
 						rec.ints("row", row)
 					}
 				case 3:
@@ -542,7 +543,20 @@ func makeTask(s spec, w *world, rec *Rec) func() {
 		return func() {
 			g := sharedGraph(w, which)
 			for rep := 0; rep < 1+reps; rep++ {
-				switch (op + rep) % 16 {
+				switch (op + rep) % 18 {
+				case 16:
+					// these take an EditableGraph but are read-only queries (they work on copies)
+					if eg, ok := g.(graph.EditableGraph); ok && g.N() <= 8 && g.M() <= 12 {
+						rec.ints("chrompoly", graph.ChromaticPolynomial(eg))
+					} else {
+						rec.num("M", g.M())
+					}
+				case 17:
+					if eg, ok := g.(graph.EditableGraph); ok {
+						rec.ints("cycles", graph.NumberOfCycles(eg))
+					} else {
+						rec.num("N", g.N())
+					}
 				case 0:
 					rec.num("N", g.N())
 					rec.num("M", g.M())
@@ -937,7 +951,7 @@ type scenario struct {
 	shardP   int
 }
 
-func drawScenario(r *driver.Run) scenario {
+func drawScenario(r *driver.Run, cold bool) scenario {
 	t := r.T
 	var sc scenario
 	sc.wp = worldParams{gn: t.Range(3, 9), gseed: t.Draw(1000), gden: 1 + t.Draw(7), words: 5 + t.Draw(40), wseed: t.Draw(1000)}
@@ -954,8 +968,20 @@ func drawScenario(r *driver.Run) scenario {
 			return drawSpec(r, k, thorough)
 		}
 	}
-	which := t.Draw(10)
+	which := t.Draw(11)
+	if cold {
+		which = 10
+	}
 	switch which {
+	case 10:
+		// twins: 2-3 identical tasks. They execute the same call sequence, so under a fine-grained
+		// schedule they reach any process-wide or per-value lazily filled state at the same time.
+		k := t.Range(2, 3)
+		s := anyTask(nil)
+		for i := 0; i < k; i++ {
+			sc.specs = append(sc.specs, s)
+		}
+		sc.name = "twins of " + kindNames[s.kind]
 	case 0: // all shards of one search
 		n := t.Range(3, 6)
 		if thorough && t.Chance(1, 4) {
@@ -1046,7 +1072,7 @@ func drawSpec(r *driver.Run, k int, thorough bool) spec {
 	case kDawgBuild:
 		s.p = [6]int{t.Draw(1000), t.Range(1, 40)}
 	case kObserver:
-		s.p = [6]int{t.Draw(4), t.Draw(16), t.Draw(3)}
+		s.p = [6]int{t.Draw(4), t.Draw(18), t.Draw(3)}
 	case kTSP:
 		s.p = [6]int{t.Draw(9), t.Draw(100)}
 	case kEncoders:
@@ -1188,7 +1214,9 @@ func panicText(p interface{}) string {
 
 func runOne(r *driver.Run) {
 	t := r.T
-	sc := drawScenario(r)
+	// cold: the driver executes this run in a fresh process (forced draw, part of the tape)
+	cold := t.Draw(2) == 1
+	sc := drawScenario(r, cold)
 	nt := len(sc.specs)
 	names := make([]string, nt)
 	for i, s := range sc.specs {
@@ -1201,44 +1229,90 @@ func runOne(r *driver.Run) {
 	expPanic := make([]string, nt)
 	var soloYields int64
 	sched.SoloSitesReset()
-	for i := 0; i < nt; i++ {
-		s := sc.specs[i]
-		if s.kind == kCliqueProducer {
-			continue
-		}
-		wp := sc.wp
-		if s.kind == kCliqueConsumer {
-			// the pair's solo result: the producer with a channel it can never fill, then drained
-			wp.chanCap[s.p[1]] = 1 << 16
+	// In half of the runs the concurrent pass comes FIRST: process-wide lazily filled
+	// state (a memo table, a sync.Once-guarded pool) would otherwise always be warmed by the
+	// solo passes before the tasks ever meet it concurrently.
+	concFirst := t.Chance(1, 2) || cold
+	soloPasses := func() bool {
+		for i := 0; i < nt; i++ {
+			s := sc.specs[i]
+			if s.kind == kCliqueProducer {
+				continue
+			}
+			wp := sc.wp
+			if s.kind == kCliqueConsumer {
+				// the pair's solo result: the producer with a channel it can never fill, then drained
+				wp.chanCap[s.p[1]] = 1 << 16
+				w := buildWorld(wp)
+				if w == nil {
+					r.Count("skipped_world_cannot_be_built", 1)
+					return false
+				}
+				prod := makeTask(spec{kind: kCliqueProducer, p: s.p}, w, &Rec{})
+				cons := makeTask(s, w, &expected[i])
+				y, pan, over := sched.Solo(20_000_000, func() { prod(); cons() })
+				soloYields += y
+				expPanic[i] = panicText(pan)
+				if over {
+					r.Count("skipped_scenario_too_expensive", 1)
+					r.Logf("solo pass of %s exceeds the solo step budget: scenario skipped", names[i])
+					return false
+				}
+				continue
+			}
 			w := buildWorld(wp)
 			if w == nil {
 				r.Count("skipped_world_cannot_be_built", 1)
-				return
+				return false
 			}
-			prod := makeTask(spec{kind: kCliqueProducer, p: s.p}, w, &Rec{})
-			cons := makeTask(s, w, &expected[i])
-			y, pan, over := sched.Solo(20_000_000, func() { prod(); cons() })
+			f := makeTask(s, w, &expected[i])
+			y, pan, over := sched.Solo(20_000_000, f)
 			soloYields += y
 			expPanic[i] = panicText(pan)
 			if over {
 				r.Count("skipped_scenario_too_expensive", 1)
 				r.Logf("solo pass of %s exceeds the solo step budget: scenario skipped", names[i])
-				return
+				return false
 			}
-			continue
 		}
-		w := buildWorld(wp)
-		if w == nil {
-			r.Count("skipped_world_cannot_be_built", 1)
+		return true
+	}
+	if os.Getenv("VERIF_SOLO_ONLY") == "1" {
+		// helper process of a cold run: only the solo passes, results handed back in the trace
+		if soloPasses() {
+			type sr struct {
+				H     []uint64 `json:"h"`
+				N     []int    `json:"n"`
+				Panic []string `json:"panic"`
+			}
+			out := sr{Panic: expPanic}
+			for i := range expected {
+				out.H = append(out.H, expected[i].h)
+				out.N = append(out.N, expected[i].n)
+			}
+			b, _ := json.Marshal(out)
+			r.Tracing = true
+			r.Logf("SOLO-RESULTS %s", b)
+		}
+		return
+	}
+	soloElsewhere := false
+	if cold {
+		// A cold run must not compute its reference results in its own process: if the
+		// concurrent pass corrupts process-wide state, solo passes run afterwards would be
+		// corrupted the same way. The solo passes run in yet another fresh process.
+		h, n, pn, ok := soloInFreshProcess(r)
+		if !ok {
+			r.Count("skipped_cold_solo_unavailable", 1)
 			return
 		}
-		f := makeTask(s, w, &expected[i])
-		y, pan, over := sched.Solo(20_000_000, f)
-		soloYields += y
-		expPanic[i] = panicText(pan)
-		if over {
-			r.Count("skipped_scenario_too_expensive", 1)
-			r.Logf("solo pass of %s exceeds the solo step budget: scenario skipped", names[i])
+		for i := range expected {
+			expected[i].h, expected[i].n, expPanic[i] = h[i], n[i], pn[i]
+		}
+		soloElsewhere = true
+	}
+	if !concFirst {
+		if !soloPasses() {
 			return
 		}
 	}
@@ -1247,6 +1321,16 @@ func runOne(r *driver.Run) {
 	// ---- the schedule
 	cfg := sched.Config{Seed: uint64(t.Draw(1 << 31)), First: t.Draw(nt), StepBudget: 30*soloYields + 2_000_000}
 	pol := t.Weighted([]int{2, 5, 3, 3})
+	if concFirst {
+		// no solo profile yet: policies that need yield ordinals / site counts are not available
+		pol = t.Weighted([]int{1, 3})
+		if cold {
+			pol = sched.PolUniform
+			r.Probe("cold-start-twins-run")
+		}
+		cfg.StepBudget = 120_000_000
+		r.Probe("concurrent-pass-before-solo-passes")
+	}
 	cfg.Policy = pol
 	switch pol {
 	case sched.PolCoarse:
@@ -1290,6 +1374,11 @@ func runOne(r *driver.Run) {
 	pans, stats := sched.Run(cfg, tasks)
 	reports := newRaceReports()
 	after := snapshot(w)
+	if concFirst && !stats.Stuck && !soloElsewhere {
+		if !soloPasses() {
+			return
+		}
+	}
 
 	r.Count("steps", stats.Yields)
 	r.Count("yields", stats.Yields)
@@ -1326,6 +1415,9 @@ func runOne(r *driver.Run) {
 			os.Exit(2)
 		}
 		r.Fail("race", key, "the race detector reports %d data race(s) between tasks of scenario %s under policy %s; first report:\n%s", nrep, sc.name, polName, clipReport(reports))
+	}
+	if stats.Stuck {
+		r.Fail("stuck", sc.name, "no yield point was executed for a minute of wall time during the concurrent pass of scenario %s (policy %s) although every task terminated when run alone: a task is blocked for ever in a blocking operation (channel receive / select / WaitGroup ...) that only completes under some interleavings. The process cannot continue after this.", sc.name, polName)
 	}
 	if stats.Deadlock {
 		r.Fail("deadlock", sc.name, "all live tasks are blocked (scenario %s)", sc.name)
@@ -1378,6 +1470,48 @@ func runOne(r *driver.Run) {
 	}
 }
 
+// soloInFreshProcess re-executes the tape drawn so far in a fresh process of this binary in
+// solo-only mode and returns the per-task reference results.
+func soloInFreshProcess(r *driver.Run) (h []uint64, n []int, pn []string, ok bool) {
+	dir, err := os.MkdirTemp("", "solo-")
+	if err != nil {
+		return nil, nil, nil, false
+	}
+	defer os.RemoveAll(dir)
+	in, out := dir+"/tape.json", dir+"/out.json"
+	b, _ := json.Marshal(r.T.Rec)
+	os.WriteFile(in, b, 0o644)
+	c := exec.Command(os.Args[0], "-exectape", in, "-execout", out, "-tier", r.Tier)
+	c.Env = append(os.Environ(), "VERIF_SOLO_ONLY=1")
+	c.Stderr = os.Stderr
+	if c.Run() != nil {
+		return nil, nil, nil, false
+	}
+	ob, err := os.ReadFile(out)
+	if err != nil {
+		return nil, nil, nil, false
+	}
+	var res struct {
+		Trace []string `json:"trace"`
+	}
+	if json.Unmarshal(ob, &res) != nil {
+		return nil, nil, nil, false
+	}
+	for _, l := range res.Trace {
+		if strings.HasPrefix(l, "SOLO-RESULTS ") {
+			var sr struct {
+				H     []uint64 `json:"h"`
+				N     []int    `json:"n"`
+				Panic []string `json:"panic"`
+			}
+			if json.Unmarshal([]byte(strings.TrimPrefix(l, "SOLO-RESULTS ")), &sr) == nil {
+				return sr.H, sr.N, sr.Panic, true
+			}
+		}
+	}
+	return nil, nil, nil, false
+}
+
 func clipReport(s string) string {
 	lines := strings.Split(s, "\n")
 	if len(lines) > 45 {
@@ -1393,7 +1527,7 @@ func main() {
 		Property: "C19",
 		Engine:   "sched",
 		Level:    "exploration",
-		Rule: "a case is one seeded (scenario, schedule) pair: 2-6 tasks drawn from a catalogue of 18 task kinds in 9 scenarios (all shards of one search; labellers with own storage; iterators+comb; Dawg queries with own searchers on one shared Dawg next to builders; observers and read-only algorithms on one shared dense/sparse/complement/induced-view graph; AllMaximalCliques producer/consumer pairs over channels of capacity 1-3; sets/dsu/tsp/sort/graph editors/codecs/generators on own values; a checkpoint-restored iterator next to its original; mixed), run as goroutines of which exactly one holds the baton; a seeded policy (coarse quanta, uniform quanta in [1,2Q] for Q in {2,10,100,1000}, <= 5 preemptions at exact yield ordinals, preemption at the j-th visit of a chosen site) decides every context switch at the generated yield points. " +
+		Rule: "a case is one seeded (scenario, schedule) pair: 2-6 tasks drawn from a catalogue of 18 task kinds in 10 scenarios (all shards of one search; labellers with own storage; iterators+comb; Dawg queries with own searchers on one shared Dawg next to builders; observers and read-only algorithms on one shared dense/sparse/complement/induced-view graph; AllMaximalCliques producer/consumer pairs over channels of capacity 1-3; sets/dsu/tsp/sort/graph editors/codecs/generators on own values; a checkpoint-restored iterator next to its original; twins = 2-3 identical tasks; mixed); one run in 200 is executed in a fresh process (with its reference solo results computed in yet another fresh process) ('cold start': twins, concurrent pass before the solo passes, fine-grained schedule) so that process-wide lazily initialised state is met concurrently, run as goroutines of which exactly one holds the baton; a seeded policy (coarse quanta, uniform quanta in [1,2Q] for Q in {2,10,100,1000}, <= 5 preemptions at exact yield ordinals, preemption at the j-th visit of a chosen site) decides every context switch at the generated yield points. " +
 			"Checked: each task's result equals its result run alone on freshly built identical values; the race detector (blind to the baton hand-over, history_size=7) reports nothing; shared values are unchanged; a complete shard set still partitions the classes. Non-trivial = at least 2 context switches; distinct = distinct hashes of the (task, site) sequence at switch points together with the results (distinct interleavings).",
 		Assumptions: []string{
 			"execution is serialised by the simulator: effects of truly parallel execution that do not need a data race (weak memory) are out of reach; the race-detector clause covers them to the extent that they need a race",
@@ -1405,13 +1539,14 @@ func main() {
 		Stubs: []string{"the goroutine scheduler (baton + seeded policies)", "callers / consumers / predicates / searchers supplied by the harness"},
 		Plan: func(tier string) driver.Plan {
 			if tier == "thorough" {
-				return driver.Plan{Random: 150000, WallLimit: 40 * time.Minute}
+				return driver.Plan{Random: 150000, WallLimit: 60 * time.Minute, ColdEvery: 25}
 			}
 			return driver.Plan{Random: 20000, WallLimit: 6 * time.Minute}
 		},
-		RunOne:   runOne,
-		OwnHook:  true,
-		Isolated: true,
+		RunOne:    runOne,
+		OwnHook:   true,
+		Isolated:  true,
+		ColdEvery: 200,
 		Finish: func(c map[string]int64) {
 			seen, pre := sched.Coverage()
 			for i := range seen {
